@@ -26,7 +26,7 @@
      overflow of String/Equals/deepCopy on a value that contains itself.
    Event handlers (C02_handlers_partial, C02_handlers_modulo_overflow_partial): an event
    delivered in the state a normally ended run (or an earlier event) leaves is handled
-   without going wrong.  Outside both fragments: the test built-in and the un-modelled built-ins.  The full statement [soundness_full] is REFUTED
+   without going wrong.  The test built-in is inside both fragments; outside: the un-modelled built-ins.  The full statement [soundness_full] is REFUTED
    on the model (and on the implementation): C02_soundness_full_refuted. *)
 From Coq Require Import ZArith NArith List String Bool.
 From EvyV Require Import Base Num Ast Omap Sem Static SemSound.
